@@ -58,6 +58,9 @@ PROGRAMS = [
     "f(a, k=b, *c, **d)\nclass C(B, m=M, *N): pass",
     # 46: delimiters shared between a call and its solo generator argument
     "s = sum(x for x in y)\nprint(a, (i for i in j))\n@d(k for k in l)\ndef f(): pass",
+    # 47-48: primitives in tight layouts (literals touching keywords / dots), names containing 'as', relative imports
+    "x = not'b'\ny = 'a'.b\nz = 1 if'a'else 2\nw = ['c',-1]",
+    "import asab as a, fromm\nfrom .a.b import c as d\nfrom .. import e\nfrom ...f import (g as h)",
 ]
 
 for _p in PROGRAMS:
